@@ -395,6 +395,120 @@ class TrFl(Tr):
     return f"(fl ({self.cast(a, ta, 'real')} {op} {self.cast(b, tb, 'real')}))", "real"
 
 
+# ---------------------------------------------------------------------------------------------------------------
+# AST normalisation before translation: calls to simple pure helpers of the same module are inlined by substitution
+# (a helper is "simple" when its body is: docstring / asserts / assignments to names / one final `return <expr>`), and
+# `a, b = <tuple>` is split into single assignments.  Extracting such helpers is the most common harmless refactoring of
+# the selectors; without this it would leave the translatable subset and every dependent theorem would stop building.
+
+def _simple_helper(fdef):
+  if fdef.args.vararg or fdef.args.kwarg or fdef.args.kwonlyargs or fdef.decorator_list:
+    return None
+  params = [a.arg for a in fdef.args.args]
+  defaults = dict(zip(params[len(params) - len(fdef.args.defaults):], fdef.args.defaults))
+  assigns, ret = [], None
+  for st in fdef.body:
+    if isinstance(st, ast.Expr) and isinstance(st.value, ast.Constant):
+      continue
+    if isinstance(st, ast.Assert):
+      continue
+    if ret is not None:
+      return None
+    if isinstance(st, ast.Assign) and len(st.targets) == 1 and isinstance(st.targets[0], ast.Name):
+      assigns.append((st.targets[0].id, st.value))
+    elif isinstance(st, ast.Return) and st.value is not None:
+      ret = st.value
+    else:
+      return None
+  if ret is None:
+    return None
+  return params, defaults, assigns, ret
+
+
+class _Subst(ast.NodeTransformer):
+  def __init__(self, mapping):
+    self.mapping = mapping
+
+  def visit_Name(self, node):
+    if isinstance(node.ctx, ast.Load) and node.id in self.mapping:
+      import copy as _copy
+      return _copy.deepcopy(self.mapping[node.id])
+    return node
+
+
+def _subst(expr, mapping):
+  import copy as _copy
+  return _Subst(mapping).visit(_copy.deepcopy(expr))
+
+
+class _Inliner(ast.NodeTransformer):
+  def __init__(self, helpers, self_name, depth=0):
+    self.helpers, self.self_name, self.depth = helpers, self_name, depth
+
+  def visit_Call(self, node):
+    self.generic_visit(node)
+    if not (isinstance(node.func, ast.Name) and node.func.id in self.helpers and node.func.id != self.self_name):
+      return node
+    if self.depth > 6:
+      raise TranslationError(f"helper inlining too deep at {node.func.id}")
+    params, defaults, assigns, ret = self.helpers[node.func.id]
+    if any(isinstance(a, ast.Starred) for a in node.args) or any(k.arg is None for k in node.keywords) or len(node.args) > len(params):
+      raise TranslationError(f"call of helper {node.func.id} with star arguments")
+    mapping = dict(zip(params, node.args))
+    for k in node.keywords:
+      if k.arg not in params or k.arg in mapping:
+        raise TranslationError(f"call of helper {node.func.id}: bad keyword {k.arg}")
+      mapping[k.arg] = k.value
+    for prm in params:
+      if prm not in mapping:
+        if prm not in defaults:
+          raise TranslationError(f"call of helper {node.func.id}: missing argument {prm}")
+        mapping[prm] = defaults[prm]
+    for nm, e in assigns:                       # sequential substitution = the helper's own data flow
+      mapping[nm] = _subst(e, mapping)
+    out = _subst(ret, mapping)
+    return _Inliner(self.helpers, node.func.id, self.depth + 1).visit(out)   # helpers calling helpers
+
+
+def normalise_body(fn, tree):
+  """the function's statements with simple same-module helpers inlined and tuple assignments split"""
+  import copy as _copy
+  helpers = {}
+  for st in tree.body:
+    if isinstance(st, ast.FunctionDef) and st.name != fn.name:
+      h = _simple_helper(st)
+      if h is not None:
+        helpers[st.name] = h
+  inl = _Inliner(helpers, fn.name)
+
+  def block(stmts):
+    out = []
+    for st in stmts:
+      st = _copy.deepcopy(st)
+      if isinstance(st, ast.If):
+        st.test = inl.visit(st.test)
+        st.body = block(st.body)
+        st.orelse = block(st.orelse)
+        out.append(st)
+        continue
+      st = inl.visit(st)
+      if isinstance(st, ast.Assign) and len(st.targets) == 1 and isinstance(st.targets[0], ast.Tuple) \
+          and isinstance(st.value, ast.Tuple) and len(st.value.elts) == len(st.targets[0].elts) \
+          and all(isinstance(t, ast.Name) for t in st.targets[0].elts):
+        names = [t.id for t in st.targets[0].elts]
+        used = set()
+        for e in st.value.elts:
+          used |= {n.id for n in ast.walk(e) if isinstance(n, ast.Name)}
+        if used & set(names):
+          raise TranslationError("tuple assignment whose right-hand side reads its own targets")
+        for nm, e in zip(names, st.value.elts):
+          out.append(ast.copy_location(ast.Assign(targets=[ast.Name(id=nm, ctx=ast.Store())], value=e), st))
+        continue
+      out.append(st)
+    return out
+  return block(list(fn.body))
+
+
 def module_info(path):
   src = open(path).read()
   tree = ast.parse(src)
@@ -446,7 +560,7 @@ def generate(repo, gen_dir):
       declared = [a.arg for a in fn.args.args]
       if declared != [p[0] for p in spec["params"]]:
         raise TranslationError(f"parameter list changed: {declared}")
-      body_stmts = list(fn.body)
+      body_stmts = normalise_body(fn, tree)
       extra_params = []
       if spec.get("bind"):
         # leading assignments that read opaque objects become parameters of the translated function
